@@ -7,6 +7,7 @@ import (
 	"net/http"
 	"net/http/httptest"
 	"os"
+	"os/exec"
 	"regexp"
 	"strconv"
 	"strings"
@@ -32,9 +33,40 @@ import (
 //                                      error (uuid.SetRand with a failing reader, restored afterwards).
 //                                      Such an upload must fail (write nothing) or still use a fresh key.
 //
+//   (s3/gcs lines may say plen=<N> instead of prefix=: a prefix of exactly N bytes, e.g. 0, 1, 1017, 1018, 1024, 2000)
+//   xproc procs=<K> n=<N>              K child processes (this binary re-executed with GODEBUG=randautoseed=0,
+//                                      i.e. every process-global pseudo-random source starts in the same
+//                                      state) each generate N S3 keys and N uuid.New() values; no key may be
+//                                      shared between processes
+//
 // For gen/s3/gcs the model is handed the 16 bytes recovered from each observed key (the random
 // draw is an environment value) and must reproduce the key text; the oracle checks that no key
 // occurs twice within the case (all lines of a case share one key space per backend+prefix).
+
+// Child mode: re-executed by an `xproc` line; prints keys and exits before the framework's main runs.
+func init() {
+	if n, err := strconv.Atoi(os.Getenv("VERIF_C33_CHILD")); err == nil && n > 0 {
+		for i := 0; i < n; i++ {
+			fmt.Println("s3 " + vgis3.VerifC33GenerateUUID())
+		}
+		for i := 0; i < n; i++ {
+			fmt.Println("uuid " + uuid.New().String())
+		}
+		os.Exit(0)
+	}
+}
+
+func c33Prefix(kv map[string]string) string {
+	if v, ok := kv["plen"]; ok {
+		n, _ := strconv.Atoi(v)
+		return strings.Repeat("tenant-7/", n/9+1)[:n]
+	}
+	if p, ok := kv["prefix"]; ok {
+		b, _ := hex.DecodeString(p)
+		return string(b)
+	}
+	return ""
+}
 
 func init() {
 	Register(&Prop{
@@ -231,12 +263,51 @@ func c33Exec(c *Case) {
 		}
 		n, _ := strconv.Atoi(kv["n"])
 		workers, _ := strconv.Atoi(kv["workers"])
-		prefix := ""
-		if p, ok := kv["prefix"]; ok {
-			b, _ := hex.DecodeString(p)
-			prefix = string(b)
-		}
+		prefix := c33Prefix(kv)
 		switch f[0] {
+		case "xproc":
+			procs, _ := strconv.Atoi(kv["procs"])
+			exe, err := os.Executable()
+			if err != nil {
+				panic(err)
+			}
+			owner := map[string]int{} // key -> first process that produced it
+			shared, firstShared := 0, ""
+			var all []string
+			for pi := 0; pi < procs; pi++ {
+				cmd := exec.Command(exe, "list", "C33")
+				cmd.Env = append(os.Environ(), "GODEBUG=randautoseed=0", "VERIF_C33_CHILD="+strconv.Itoa(n))
+				out, err := cmd.Output()
+				if err != nil {
+					panic(fmt.Sprintf("child process failed: %v", err))
+				}
+				for _, ln := range strings.Split(strings.TrimSpace(string(out)), "\n") {
+					p := strings.SplitN(ln, " ", 2)
+					if len(p) != 2 {
+						continue
+					}
+					k := p[0] + "|" + p[1]
+					if o, ok := owner[k]; ok && o != pi {
+						shared++
+						if firstShared == "" {
+							firstShared = p[1]
+						}
+					} else if !ok {
+						owner[k] = pi
+					}
+					if p[0] == "s3" {
+						all = append(all, p[1])
+					}
+				}
+			}
+			c.Stat("xproc-lines")
+			if len(all) != procs*n {
+				c.Oracle("child-processes-produced-no-keys", fmt.Sprintf("%q: %d keys from %d processes", l, len(all), procs))
+			}
+			if shared > 0 {
+				c.Oracle("object-key-shared-across-processes", fmt.Sprintf("%q: %d keys were produced by more than one process started in the same pseudo-random state (e.g. %s)", l, shared, firstShared))
+			}
+			c33Check(c, l, "s3", "", "", all, map[string]bool{})
 		case "fmt":
 			b := MustUnX(f[1])
 			var a [16]byte
@@ -351,6 +422,16 @@ func c33Gen(g *Gen) {
 	g.Case(fmt.Sprintf("gen n=%d workers=1", g.N(60000, 1000000)), fmt.Sprintf("gen n=%d workers=16", g.N(96000, 1600000)))
 	for i := 0; i < g.N(6, 30); i++ {
 		g.Case(fmt.Sprintf("gen n=%d workers=%d", r.Range(1000, 20000), Pick(r, []int{1, 2, 4, 8, 32})))
+	}
+	// several processes whose process-global pseudo-random sources start in the same state
+	g.Case(fmt.Sprintf("xproc procs=%d n=%d", 3, g.N(6, 50)))
+	g.Case(fmt.Sprintf("xproc procs=%d n=%d", 2, r.Range(1, 4)))
+	// prefix lengths around the object-name limit of the stores (1024 bytes), both backends and encodings
+	for _, pl := range []int{0, 1, 900, 1000, 1017, 1018, 1024, 2000} {
+		enc := Pick(r, []string{"none", "zstd"})
+		g.Case(fmt.Sprintf("s3 n=%d workers=%d plen=%d enc=%s", r.Range(8, 16), Pick(r, []int{1, 4}), pl, enc),
+			fmt.Sprintf("gcs n=%d workers=%d plen=%d enc=%s", r.Range(4, 8), Pick(r, []int{1, 2}), pl, enc),
+			fmt.Sprintf("gcs n=%d workers=1 plen=%d enc=%s", r.Range(3, 6), pl, Pick(r, []string{"none", "zstd"})))
 	}
 	// real uploads
 	prefixes := []string{"", "vgi-rpc/", "a/b/", "x", "tenant-1/2026/09/"}
